@@ -112,7 +112,7 @@ func init() {
 				}}})
 			// a parent is closed by one goroutine while another derives new scopes from it; afterwards new scopes can still
 			// be created in that shard (no lock is left behind)
-			out = append(out, scenarioSet{mode: "dfs", maxExec: 1500, sc: &Scenario{
+			out = append(out, scenarioSet{mode: "random", maxExec: 500, sc: &Scenario{
 				Name: "c07-close-during-derive-" + rep, Reporter: rep, Shards: 1,
 				Points: []string{"op_sub", "op_close", "ss_closed_check", "ss_rlock", "ss_found_check", "ss_lock", "cl_cas"},
 				Threads: []ThreadSpec{
